@@ -246,6 +246,9 @@ pub fn run_c10(tier: &str, seed: u64) -> i32 {
     });
     let rec_evals = acc.evals;
     acc.merge(report::par_acc(n2, |r| sb_checks::run_c10_search(seed, r)));
+    // (i) again, through the real command loop: several position commands in one session
+    let n3: u64 = if quick { 3_000 } else { 60_000 };
+    acc.merge(report::par_acc(n3, |r| sa_checks::run_c10_session(seed, r)));
     let z = ZobristHasher::create_zobrist_hasher();
     minimise_all(&mut acc, |v| if v.scenario["family"] == "SC" { sc::minimise(v, &z) } else { v.clone() });
     let meta = CheckMeta {
